@@ -128,12 +128,66 @@ def search(ctx, deep):
         got = run_cli_option(k, v)
         if got != want:
             ofails.append({"kind": "option", "input": [k, v], "text": "--{}={}".format(k, v), "expected": want, "got": got})
-    stats = {"exhaustive_loop_cases": len(cases), "option_cases": 10, "exhaustive": True,
+    cfails, ncli = cli_loop_failures(ctx, deep)
+    ofails += cfails
+    stats = {"exhaustive_loop_cases": len(cases), "option_cases": 10, "cli_loop_cases": ncli, "exhaustive": True,
              "space": "imin 0..3 x imax None,0..3 x istop x all result sequences of length <= {}".format(maxlen)}
     return stats, fails + ofails
+
+# programs with a known result per horizon (results repeat the last entry)
+CLI_PROGS = [
+    ("#program initial. a. #program dynamic. b :- 'a. #program always. c :- 'b. #program final. :- not c.", ["UNSAT", "UNSAT", "SAT"]),
+    ("#program initial. a. #program dynamic. b :- 'a. #program always. c :- 'b. :- c.", ["SAT", "SAT", "UNSAT"]),
+    ("#program always. a.", ["SAT"]),
+    ("#program always. :- not a.", ["UNSAT"]),
+]
+
+def cli_calls(text, opts):
+    env = dict(os.environ); env["PYTHONPATH"] = tl.REPO + os.pathsep + env.get("PYTHONPATH", "")
+    p = subprocess.run([sys.executable, "-m", "telingo", "0"] + opts, input=text, capture_output=True, text=True, timeout=120, env=env, cwd="/")
+    calls = None
+    for line in p.stdout.split("\n"):
+        if line.startswith("Calls"):
+            calls = int(line.split(":")[1])
+    return calls, p.returncode, p.stderr[-300:]
+
+def cli_loop_failures(ctx, deep):
+    """the command line end to end: option spellings x programs with known per-horizon results, the number of
+    solve calls must be what the specification says"""
+    r = random.Random(ctx.seed * 101 + 9)
+    combos = []
+    spell = {"SAT": ["sat", "SAT", "Sat"], "UNSAT": ["unsat", "UNSAT", "unSat"], "UNKNOWN": ["unknown"]}
+    for text, res in CLI_PROGS:
+        for istop in ("SAT", "UNSAT", "UNKNOWN"):
+            for imin in (None, 0, 2, 4):
+                for imax in (None, 1, 3, 5):
+                    combos.append((text, res, istop, imin, imax))
+    if not deep and ctx.tier == "quick":
+        combos = r.sample(combos, 40)
+    lines, metas = [], []
+    for text, res, istop, imin, imax in combos:
+        cap = imax if imax is not None else 6
+        results = (res + [res[-1]] * 10)[:max(cap, 6)]
+        # make sure the run terminates: unbounded runs that would never stop get imax=6
+        eff_imax = imax
+        lines.append(tl.sexp(("loopspec", imin or 0, sx_imax(eff_imax if eff_imax is not None else 6), istop, tuple(results))))
+        metas.append((text, results, istop, imin, eff_imax if eff_imax is not None else 6))
+    outs = SPEC.batch(lines)
+    fails = []
+    for (text, results, istop, imin, imax), so in zip(metas, outs):
+        opts = ["--istop=" + r.choice(spell[istop]), "--imax={}".format(imax)]
+        if imin is not None:
+            opts.append("--imin={}".format(imin))
+        calls, rc, err = cli_calls(text, opts)
+        if calls != int(so):
+            fails.append({"kind": "cli-loop", "text": "telingo 0 {}  <<< {}".format(" ".join(opts), text), "input": [text, opts],
+                          "expected_calls": int(so), "got_calls": calls, "stderr": err})
+    return fails, len(metas)
 
 def replay(obj):
     c = obj["input"]
     if obj.get("kind") == "option":
         return run_cli_option(*c)
+    if obj.get("kind") == "cli-loop":
+        return cli_calls(*c)
     return impl_loop.run_imain(*c)
